@@ -538,7 +538,12 @@ func (d *dataGen) val(t *c15Type) model.Val {
 	case tEntity:
 		return d.uid(t.Ent)
 	case tSet:
-		n := r.Intn(4)
+		// empty sets are frequent on purpose: two sets of different element types are equal exactly
+		// when both are empty
+		n := 0
+		if !r.P(0.4) {
+			n = 1 + r.Intn(3)
+		}
 		xs := make([]model.Val, n)
 		for i := range xs {
 			xs[i] = d.val(t.Elem)
